@@ -522,10 +522,9 @@ func RunTemplate(params InjectionParameters) (mergedPod *corev1.Pod, templatePod
 		// move the container.
 		// The sidecar.istio.io/nativeSidecar annotation takes precedence over the global feature flag.
 		native := params.nativeSidecar
-		if mergedPod.Annotations["sidecar.istio.io/nativeSidecar"] == "true" {
-			native = true
-		} else if mergedPod.Annotations["sidecar.istio.io/nativeSidecar"] == "false" {
-			native = false
+		if v := mergedPod.Annotations["sidecar.istio.io/nativeSidecar"]; v != "" {
+			// as the templates read it: any value but "false" asks for the native placement
+			native = v != "false"
 		}
 		if native &&
 			FindContainer(ProxyContainerName, templatePod.Spec.InitContainers) != nil &&
